@@ -97,6 +97,16 @@ def run(chk):
     res = chk.replay("c10stress", stress, "stress", workers=4, timeout="120s", race=True, env={"GORACE": "halt_on_error=1"})
     chk.absorb("c10stress", stress, res, crash_sig=race_sig)
     chk.extra_cov["stress_runs"] = len(stress)
+    # rich stress: a populated test.schema.v1.FullSchema (enums decoded by name, oneofs, maps, flattened objects) so that any lazily
+    # initialised state hanging off shared schema objects is exercised from several goroutines at once
+    rich = []
+    for warm in (False, True):
+        for glob in (False, True):
+            for k in range(3 if quick else 12):
+                rich.append({"graph": {}, "goroutines": 16, "per_g": 150 if quick else 600, "seed": seed * 500 + k, "warm": warm, "global": glob})
+    res = chk.replay("c10rich", rich, "rich", workers=4, timeout="180s", race=True, env={"GORACE": "halt_on_error=1"})
+    chk.absorb("c10rich", rich, res, crash_sig=race_sig)
+    chk.extra_cov["rich_stress_runs"] = len(rich)
     # ---- (iv) trace validation of free runs
     for gname, graph in GRAPHS.items():
         runs = [{"graph": graph, "goroutines": 4, "per_g": 6, "seed": seed * 77 + k, "warm": False, "global": False, "log": True}
